@@ -44,7 +44,7 @@ def finish(ctx):
 
 def generate(ctx):
     rng = ctx.rng
-    n = ctx.scaled({"quick": 3000, "thorough": 400000}[ctx.tier])
+    n = ctx.scaled({"quick": 3000, "thorough": 300000}[ctx.tier])
     for i in range(n):
         k1 = float(rng.uniform(3, 10))
         curve = {"k_1": k1, "SD": float(10 ** rng.uniform(1.5, 2.7)), "ND": float(10 ** rng.uniform(5, 7))}
